@@ -1,1 +1,3 @@
-
+import Spec.Checksum
+import Spec.Wsgi
+import Spec.State
